@@ -94,8 +94,14 @@ def fingerprint(kind, only):
     for sub in ("engine", "cmd", "overlays", os.path.join("tools", "rewrite")):
         h.update(tree_hash(os.path.join(VERIF, sub)).encode())
     hd = os.path.join(VERIF, "harness")
+    claimed = None
+    if not only:
+        try:
+            claimed = set(c["property_id"].lower() for c in json.load(open(os.path.join(VERIF, "MANIFEST.json")))["checks"])
+        except Exception:
+            claimed = None
     for d in sorted(os.listdir(hd)):
-        if os.path.isdir(os.path.join(hd, d)) and (not only or d in only):
+        if os.path.isdir(os.path.join(hd, d)) and ((only and d in only) or (not only and (claimed is None or d in claimed))):
             h.update(tree_hash(os.path.join(hd, d)).encode())
     h.update(open(os.path.abspath(__file__), "rb").read())
     return h.hexdigest()
@@ -129,8 +135,17 @@ def main():
     gen = os.path.join(BUILD, "gen", kind + suffix)
     os.makedirs(gen, exist_ok=True)
     # the list of registered checks is generated from the harness directories
+    # without VERIF_ONLY the binary holds exactly the checks registered in MANIFEST.json
+    # (harness directories still under construction are left out)
+    claimed = None
+    if not only:
+        try:
+            claimed = set(c["property_id"].lower() for c in json.load(open(os.path.join(VERIF, "MANIFEST.json")))["checks"])
+        except Exception:
+            claimed = None
     pkgs = sorted(d for d in os.listdir(os.path.join(VERIF, "harness"))
-                  if os.path.isdir(os.path.join(VERIF, "harness", d)) and (not only or d in only))
+                  if os.path.isdir(os.path.join(VERIF, "harness", d))
+                  and ((only and d in only) or (not only and (claimed is None or d in claimed))))
     reg = "package main\n\nimport (\n" + "".join('\t_ "%s/internal/verifx/%s"\n' % (MOD, d) for d in pkgs) + ")\n"
     regpath = os.path.join(gen, "checks_gen.go")
     if not os.path.exists(regpath) or open(regpath).read() != reg:
